@@ -4,8 +4,11 @@ proof:  lean/AdeptProofs/Props/C03.lean: for arbitrary rank, extents, strides (e
         offsets and expression trees, the transcribed loops of Array.h / FixedArray.h / IndexedArray.h / where.h (target
         traversal with advance_index, set_location_/advance_location_ of every leaf, the ++index branch, push_lhs_range
         batching, is_gap resynchronisation, translate_coords_) record the SAME tape and store the same values as the
-        element-by-element scalar program the statement denotes (list equality); whole and per-dimension
-        sum/mean/product/minval/maxval record tapes with the same tangent-linear map as the scalar accumulation loop.
+        element-by-element scalar program the statement denotes (list equality), the element-wise functions max/fmax/min/fmin
+        (policy classes Max, Min: each operand read at its own location, tie rule of is_left) and abs/fabs included;
+        diag_vector(active expression, k) likewise; whole and per-dimension sum/mean/product/minval/maxval record tapes with
+        the same tangent-linear map as the scalar accumulation loop, reduce_dimension's own odometer transcribed literally
+        and proved to take the strips in index order of the result.
 tie:    model AdeptModel/ArrayAD.lean <-> the real library, two-phase: the driver harness/drv_arrayad*.cpp prints, for every
         executed statement, the geometry (gradient index, offset, dims, strides) and memory image of every operand, the tape
         statements appended and the memory image afterwards; from that the model's input line is assembled and the model's
@@ -23,7 +26,9 @@ import arrayadcommon as ac
 LEVEL = "proof"
 NS = "Adept.ArrayAD."
 REQUIRED = ["C03_record_eq_denote_assign", "C03_record_eq_denote_passive", "C03_record_eq_denote_scalar",
-            "C03_record_eq_denote_where", "C03_record_eq_denote_indexed", "C03_reduce_jacobian", "C03_values"]
+            "C03_record_eq_denote_where", "C03_record_eq_denote_indexed", "C03_reduce_jacobian", "C03_values",
+            "C03_record_eq_denote_maxmin", "C03_max_min_rule", "C03_max_min_abs_values", "C03_record_eq_denote_abs",
+            "C03_record_eq_denote_diag_vector", "C03_reduce_dim_strip_order", "C03_reduce_dim_jacobian"]
 # values that keep the arguments of the Float-regime functions inside their open domains, also for the product A*B of two
 # such arrays (the nested form): dyadic, printed and parsed exactly
 DOMAIN_VALUES = {
@@ -695,7 +700,7 @@ class Gen:
         """Float regime (oracle only): every element-wise function of ADEPT_DEF_UNARY_FUNC and the binary pow / atan2 on
         active arrays of any layout, plain and as `f(A*B)*B`; arguments inside the open domain of the function"""
         r = self.r
-        k = self.pick("k", ["ffn", "ffn", "ffn", "ffnn", "ffnn", "ffb", "ffbl", "ffbr"])
+        k = self.pick("k", ["ffn", "ffn", "ffn", "ffnn", "ffnn", "ffb", "ffbl", "ffbr", "ffbn"])
         d = self.rankdims((1, 2), 30); t = self.target(d)
         lay = lambda: self.pick("layout", ["any", "any", "root", "T", "rev", "stride", "col"])
         if k in ("ffn", "ffnn"):
@@ -708,7 +713,10 @@ class Gen:
                 self.emit("ffnn %s %d %d %d" % (name, t, a, self.layout(d, True, lay(), st)), "function-nested-" + name, d, t)
             return
         f = self.pick("name", ["pow", "atan2"])
-        if k == "ffb":
+        if k == "ffbn":
+            a = self.layout(d, True, lay(), "pos" if f == "pow" else "real")
+            self.emit("ffbn %s %d %d %d" % (f, t, a, self.layout(d, True, lay(), "real")), "function-nested-" + f, d, t)
+        elif k == "ffb":
             acta, actb = self.pick("acts", [(True, True), (True, False), (False, True)])
             a = self.layout(d, acta, lay(), "pos" if f == "pow" else "real")
             b = self.layout(d, actb, lay(), "real")
@@ -994,6 +1002,7 @@ def sweep_cases(rng, tier="quick"):
         for acts in ((True, True), (True, False), (False, True)):
             D("funcs", k="ffb", name=f, acts=acts)
         D("funcs", k="ffbl", name=f)
+        D("funcs", k="ffbn", name=f, rank=1); D("funcs", k="ffbn", name=f, rank=2)
     D("funcs", k="ffbr", name="pow")
     # diag_vector(expression, k): every k of a 3x5 / 5x3 / 4x2-like expression (extents differ), both signs
     for ext_ in ((3, 5), (5, 3), (2, 4)):
@@ -1184,7 +1193,7 @@ def shrink(exe, W, ops, kind):
 
 
 def signature(ops, msg):
-    sub = ("red", "rede", "rdim", "rdime", "mm", "mmsl", "mmsr", "mmal", "mmar", "mmn1", "mmn2", "mmred", "ffn", "ffnn", "ffb", "ffbl", "ffbr")
+    sub = ("red", "rede", "rdim", "rdime", "mm", "mmsl", "mmsr", "mmal", "mmar", "mmn1", "mmn2", "mmred", "ffn", "ffnn", "ffb", "ffbl", "ffbr", "ffbn")
     kinds = sorted(set(o.split()[0] + ("-" + o.split()[1] if o.split()[0] in sub else "") for o in ops if ac.is_stmt(o)))
     return "C03:" + ",".join(kinds)
 
@@ -1227,12 +1236,16 @@ def run(ctx, replay):
     dist = {"statement_kinds": {}, "ranks": {}, "view_kinds": {}, "extents": {}, "regime": {"exact": 0, "float": 0}}
     pending_model = []
     nviol = 0
+    ncrash = 0
+    nsweep = 0
     for vi, ((label, kw), exe) in enumerate(zip(variants, exes)):
         W = ac.PACKET_W[kw["packets"]]
         cases = []
         if vi == 0:
             cases += [(ops, "corpus:" + name) for ops, name in load_corpus()]
-        cases += sweep_cases(ctx.rng, ctx.tier)
+        sw = sweep_cases(ctx.rng, ctx.tier)
+        nsweep = len(sw)
+        cases += sw
         n = 0
         target = nstmt_target if vi == 0 else nstmt_target // 2
         mixes = [("default", target)] if ctx.tier == "quick" else [("default", target - target // 4), ("fixed-indexed", target // 4)]
@@ -1275,8 +1288,9 @@ def run(ctx, replay):
                 if kind == "model":
                     pending_model.append((label, exe, W, ops, oi, msg))
                     continue
-                if nviol >= 3:
-                    continue
+                if nviol >= 3 or (kind == "crash" and ncrash >= 2):
+                    continue          # at most two sanitizer stops: keep a slot for a wrong value / derivative
+                ncrash += kind == "crash"
                 small_ops = shrink(exe, W, ops, kind) if kind in ("oracle", "crash") else ops
                 il, rc, err = vcheck.run_impl(exe, [], "\n".join(small_ops) + "\n")
                 v2 = judge(small_ops, il, W, rc, err)
@@ -1287,13 +1301,24 @@ def run(ctx, replay):
                     nviol += 1
     ctx.notes["distribution"] = dist
     ctx.notes["builds"] = [l for l, _ in variants] + (["sse2+ADEPT_INITIAL_STACK_LENGTH=2"] if small else [])
-    ctx.cov["rule"] = ("cases = 1-4 statements over fresh pools: ranks 1-3, extents from {1,2,3,4,5,9}, operands and targets that are roots "
+    ctx.cov["rule"] = ("cases = 1-4 statements over fresh pools: ranks 1-4, extents from {1,2,3,4,5,9}, operands and targets that are roots "
                        "(row/column-major) or compositions of stride/reversed/transposed/permuted/sliced/diag/soft_link/link views, active and "
                        "passive operands, targets Array/view/FixedArray/adouble; every statement kind of the driver menu; non-trivial = every "
                        "executed statement; distinct = different (build, statement op, pool prefix). Each statement is compared with the model "
-                       "(tape and memory image, exactly) when every number is a small dyadic, and always judged by the dual-number oracle.")
-    ctx.assumptions += ["exact regime: integer/dyadic values held in doubles; statements whose numbers leave it (mean over 3 elements, norm2, sin/exp/sqrt) "
+                       "(tape and memory image, exactly) when every number is a small dyadic, and always judged by the dual-number oracle. "
+                       "In EVERY run, before the random cases, the directed cases of sweep_cases(): one statement each, pairwise different "
+                       "extents > 1, every discrete parameter combination of every family (reduction function x rank x dimension, where / "
+                       "either_or variants x rank, every indexed kind, compound operator x kind of right-hand side x rank, binary operator x "
+                       "activeness x rank, wrappers n1..n8 x rank, element-access and FixedArray kinds, max/min function x pair of DIFFERENT "
+                       "operand layouts x activeness, every element-wise function plain and nested, pow/atan2 forms, diag_vector(expr, k) for "
+                       "every k of non-square expressions, the rank-4 menu, spread<d> for every d).")
+    ctx.notes["directed_cases"] = nsweep
+    ctx.assumptions += ["exact regime: integer/dyadic values held in doubles; statements whose numbers leave it (mean over 3 elements, norm2, the "
+                        "element-wise functions of ADEPT_DEF_UNARY_FUNC other than abs/fabs, pow, atan2 - arguments inside the open domain) "
                         "are judged by the oracle only, with relative tolerance 1e-9",
+                        "max/min at a tie: the derivative goes to the operand the scalar statement selects (Max::is_left `l > r`: right "
+                        "operand; Min::is_left `l <= r`: left operand); abs at 0: derivative factor (0>0)-(0<0) = 0 - model and oracle "
+                        "apply the same documented rule",
                         "noalias() promises are kept and where-masks do not read the target (broken promises / lazily evaluated masks are C04: F-03, F-25)",
                         "the gradient index of temporaries (alias copy, reduction accumulator) is taken from the implementation's tape; which index the "
                         "allocator hands out is C08",
